@@ -4,7 +4,9 @@ CFG = {
     "bin": "c17",
     "extra_bins": ["trun", "standin"],
     "technique": "Lean 4 proof (round trip of the model's argv through reference docker/pack option grammars; induction over the "
-                 "option list) + differential correspondence of the real TestRunner with stand-in docker/pack executables",
+                 "option list; induction over the scenario model for the one-invocation-per-build clause, with the tools' results as a "
+                 "universally quantified input) + differential correspondence of the real TestRunner with stand-in docker/pack "
+                 "executables whose exit status / stdout / stderr are scripted per invocation",
     "level_text": "Theorems (all configurations, arbitrary byte strings, no bound): parseDockerRun(dockerRunArgv(start_container cfg)) = "
                   "exactly the configured entrypoint/env/ports/mounts/image/command and no other option; the same for run_shell_command, "
                   "shell_exec and pack build (builder, path, buildpacks in order, every env pair, caches); configured entries reach the "
@@ -12,12 +14,29 @@ CFG = {
                   "paths / buildpack references containing a CSV metacharacter are excluded (`_partial`), the full statements are "
                   "refuted by witnesses (finding D6). Tied to the code by exact argv comparison of the real TestRunner::build / "
                   "start_container / run_shell_command / shell_exec / download_sbom_files / rebuild with the model, and by the "
-                  "reference parsers applied to the argv the real code produced.",
+                  "reference parsers applied to the argv the real code produced. ONE invocation per build call: theorem "
+                  "one_pack_build_per_build_call (every scenario, EVERY oracle = whatever any pack/docker invocation returns: the pack build "
+                  "commands of the run are, in order, exactly one per build/rebuild call of a prefix of the chain - the whole chain when the run "
+                  "ends normally - each the command of that call's own configuration); invocations_independent_of_tool_output (two scripts of "
+                  "tool results - exit, stdout, stderr per invocation - that agree on which invocations exit 0 give the identical run: same "
+                  "commands, argv, order); pack_output_handed_over (every expectation x every result: a TestContext exactly when the status is "
+                  "the expected kind, with pack_stdout/pack_stderr = from_utf8_lossy of THAT invocation's streams, else a panic whose message "
+                  "quotes both); hand_over_one_per_invocation; lossy_identity_on_ascii. Tied to the code by scripted scenarios: the stand-in "
+                  "records every invocation and what it printed; the spec oracle counts pack build invocations against the build/rebuild calls "
+                  "the scenario makes (read off the scenario and the scripted statuses alone) and compares the texts the test was handed "
+                  "(recorded by the scenario interpreter from TestContext / the panic hook) with what the stand-in printed at that invocation.",
     "level_note": "PARTIAL: the docker and pack option grammars (Spec/Pflag, Spec/DockerGrammar, Spec/PackGrammar) are reference models "
                   "written from my knowledge of the cobra/pflag-based CLIs; neither tool is installed in this sandbox, so the D6 findings "
                   "(comma etc. in mount paths / buildpack references) are findings *under these grammars*. Trusted: Lean kernel; the "
                   "grammars; harness, stand-in executable and canonicaliser (random names renamed by first occurrence). Modelled not "
-                  "verified: BTreeMap/HashMap/PathBuf ordering and equality, to_string_lossy on UTF-8 paths, std::process::Command argv passing.",
+                  "verified: BTreeMap/HashMap/PathBuf ordering and equality, to_string_lossy on UTF-8 paths, std::process::Command argv passing, "
+                  "String::from_utf8_lossy (Model/PackOutput.fromUtf8Lossy mirrors std's Utf8Chunks; the spec side compares texts by their "
+                  "well-formed UTF-8 content, Spec/PackInvocation, Unicode table 3-7). The property text says `one pack build invocation` per build "
+                  "configuration but only `a docker run invocation` per container configuration: the count clause proved and judged here is the "
+                  "pack one (the spec oracle's older docker-run/exec count checks are kept as they were); that the build's result IS the "
+                  "invocation's result (hand-over) is my reading of `results in one invocation`. Not covered: CommandError::Io (spawn errors other "
+                  "than not-found), a pack killed by a signal in a scripted case, outputs above ~6 kB, a pack stand-in whose behaviour depends on "
+                  "how often it was called other than through the script.",
     "shrink": [],
     "rule": "exhaustive: each of 32 distinct hostile strings (leading dashes, option look-alikes of docker/pack, '=', spaces, empty, Unicode, shell "
             "metacharacters) alone in each of up to 12 positions (the empty string is not used as env key, mount path or buildpack reference, strings with = not as env key) (entrypoint, sole/middle command word, env value, env key, mount source, mount "
@@ -33,12 +52,29 @@ CFG = {
             "download_sbom_files, and as last act a rebuild with a second fresh config or with context.config.clone() + <=2 env pairs set after the clone "
             "(1/3 overriding an inherited key) + expected result, 1/4 of those followed by a third build again from the context's config; env lists "
             "occasionally repeat a key (last value wins); absolute app dirs go through the app_dir setter, env lists of >=2 through envs(). The texts the stand-in tools print (container id, `docker port` output, stdout) and the exit status of an expected-failure pack build "
-            "rotate through 3 sets. Every 40th sample carries a CSV metacharacter in a mount path, every other 40th "
+            "rotate through 3 sets. Scripted tool results (6th field: per invocation of pack / docker its exit status, stdout, stderr; every pack "
+            "invocation the scenario can make is scripted, plus two spare ones): exhaustive part 3: each of 55 texts (13 with one of the 5 "
+            "retry-heuristic markers toomanyrequests / TLS handshake timeout / connection reset by peer / i/o timeout / unexpected EOF alone, inside "
+            "realistic pack/docker/registry messages, in the middle of ~5 kB, between invalid bytes; 20 other failure messages incl. no such host, denied, "
+            "failed to build, manifest unknown, context deadline exceeded, EOF, 429, 503, retry, name resolution, the markers in other letter case; "
+            "10 ordinary outputs incl. a look-alike of the LogOutput display and ANSI colour; empty; one of ~6 kB; 10 ill-formed UTF-8 strings incl. a "
+            "marker broken by an invalid byte) as "
+            "what ONE pack build prints x 5 situations (expected failure with the text on stderr, exit status rotating through 1 2 125 255 51 127 130 7; "
+            "expected failure with it on stdout; successful build with it on stderr; failure where success is expected; success where failure is "
+            "expected - the last two must panic with a message quoting the output) + for every marker text and every 4th other text 3 chains "
+            "(expected failure -> rebuild succeeding -> rebuild from context.config; success -> sbom download -> rebuild from context.config failing "
+            "as expected; two expected failures with different texts -> success); then seeded random scripted scenarios (the random scenarios above "
+            "with expected result Failure at 2/5, every pack build scripted to end as expected at 7/8 else against the expectation, texts from "
+            "the pool on both streams, sbom downloads scripted exit 0 with texts, at 1/2 one to three docker invocations (numbers 0..7) scripted, 1/6 "
+            "of them failing): quick 400, thorough 6000. "
+            "Every 40th sample carries a CSV metacharacter in a mount path, every other 40th "
             "in a buildpack reference (kind=d6-*; none during a violation search). quick: 1600 samples, thorough: 20000. "
-            "non-trivial = at least one hostile string (empty, leading '-', contains '=' or space, non-ASCII) in a user-supplied position; "
+            "non-trivial = at least one hostile string (empty, leading '-', contains '=' or space, non-ASCII) in a user-supplied position, or (scripted "
+            "cases) a scripted invocation with non-zero exit, non-empty stderr or ill-formed UTF-8; "
             "distinct = distinct input line",
     "trusted_base": ["Spec/Pflag.lean, Spec/DockerGrammar.lean, Spec/PackGrammar.lean are my reading of pflag's tokenizer and of the docker / pack option tables (reference models; the tools are absent)",
-                     "harness/src/bin/standin.rs (argv recorder installed as docker and pack), harness/src/bin/trun.rs (scenario interpreter calling the real libcnb-test API), harness/src/lct/mod.rs (canonicaliser)"],
+                     "Spec/PackInvocation.lean (when a handed-over string counts as the bytes a process printed: equal well-formed UTF-8 content, U+FFFD ignored) and the call/position bookkeeping of Driver/C17.lean (callsMade, packIndices: one pack build per build call, one pack sbom download per download_sbom_files, in program order)",
+                     "harness/src/bin/standin.rs (argv recorder installed as docker and pack; STANDIN_SCRIPT: per-invocation exit status/stdout/stderr, STANDIN_OUTLOG: what it printed), harness/src/bin/trun.rs (scenario interpreter calling the real libcnb-test API; records TestContext.pack_stdout/pack_stderr at the start of every closure and the panic messages through a panic hook), harness/src/lct/mod.rs (canonicaliser), the scripted case runner in harness/src/bin/c17.rs"],
     "assumptions": COMMON_ASSUME + [
         "paths and strings in configurations are valid UTF-8 (to_string_lossy is the identity on them)",
         "buildpack references are non-empty, env keys contain no '=' (well-formed configurations)",
